@@ -87,6 +87,18 @@ def legal_table(occ, rots):
     return np.array([[is_legal(occ, rots[r], x) for x in range(C)] for r in range(4)])
 
 
+
+def _tt(r, c):
+    def f():
+        from jumanji.environments import Tetris
+
+        return Tetris(num_rows=r, num_cols=c)
+    return f
+
+
+# extra configurations for C10: minimum height with a wide board, minimum width with a tall board
+EXTRA_INSTANCE_CONFIGS = {"x_r4c20": _tt(4, 20), "x_r20c4": _tt(20, 4)}
+
 class M(Model):
     ENV = "Tetris"
 
